@@ -33,14 +33,16 @@ var _ backoff.BackOff
 //@ props C05 C16
 //@ assigns nothing
 //@ invariant 0 [frame.joined-window] len(cur(joined)) <= len(joined) && window(cur(joined), joined, len(joined)-len(cur(joined)), len(joined)) // what is still to parse is a suffix of the input
-//@ invariant 1 [frame.integ-new] isnew(integrityAlgorithms)
+//@ invariant 1 [frame.integ-new] isnew(integrityAlgorithms) && otherarray(integrityAlgorithms, cur(joined))
 //@ invariant 1 [C16.rec-start] len(cur(joined)) >= 3+3*int(cur(joined)[0]&1) && cur(joined)[0]>>1 == 0x60
 //@ invariant 1 [C16.rec-id] record.CipherSuiteID == ipmi.CipherSuiteID(cur(joined)[1])
 //@ invariant 1 [C16.rec-auth] uint8(record.AuthenticationAlgorithm) == cur(joined)[2+3*int(cur(joined)[0]&1)] && cur(joined)[2+3*int(cur(joined)[0]&1)]>>6 == 0
 //@ invariant 1 [C16.rec-oem] uint32(record.Enterprise) == ite(cur(joined)[0]&1 == 1, uint32(cur(joined)[2])+uint32(cur(joined)[3])<<8+uint32(cur(joined)[4])<<16, uint32(0))
 //@ invariant 1 [C16.integ-offset] offset == 3+3*int(cur(joined)[0]&1)+len(integrityAlgorithms) && offset <= len(cur(joined))
-//@ invariant 1 [C16.integ-list] forall(qj, 0, len(integrityAlgorithms), cur(joined)[offset-len(integrityAlgorithms)+qj]>>6 == 1 && uint8(integrityAlgorithms[qj]) == cur(joined)[offset-len(integrityAlgorithms)+qj]&0x3f)
-//@ invariant 2 [frame.conf-new] isnew(confidentialityAlgorithms)
+//@ invariant 1 [C16.integ-tags] forall(qj, 0, len(integrityAlgorithms), cur(joined)[offset-len(integrityAlgorithms)+qj]>>6 == 1)
+//@ invariant 1 [C16.integ-last] len(integrityAlgorithms) > 0 ==> uint8(integrityAlgorithms[len(integrityAlgorithms)-1]) == cur(joined)[offset-1]&0x3f && cur(joined)[offset-1]>>6 == 1
+//@ invariant 1 [C16.integ-list~] forall(qj, 0, len(integrityAlgorithms), uint8(integrityAlgorithms[qj]) == cur(joined)[offset-len(integrityAlgorithms)+qj]&0x3f)
+//@ invariant 2 [frame.conf-new] isnew(confidentialityAlgorithms) && otherarray(confidentialityAlgorithms, cur(joined))
 //@ invariant 2 [frame.integ-kept] isnew(integrityAlgorithms) && len(integrityAlgorithms) >= 1 && otherarray(integrityAlgorithms, confidentialityAlgorithms)
 //@ invariant 2 [C16.rec-start] len(cur(joined)) >= 3+3*int(cur(joined)[0]&1) && cur(joined)[0]>>1 == 0x60
 //@ invariant 2 [C16.rec-id] record.CipherSuiteID == ipmi.CipherSuiteID(cur(joined)[1])
@@ -50,7 +52,9 @@ var _ backoff.BackOff
 //@ invariant 2 [C16.c-integ-none] offset-len(confidentialityAlgorithms) == 3+3*int(cur(joined)[0]&1) ==> len(integrityAlgorithms) == 1 && integrityAlgorithms[0] == ipmi.IntegrityAlgorithmNone
 //@ invariant 2 [C16.c-integ-len] offset-len(confidentialityAlgorithms) > 3+3*int(cur(joined)[0]&1) ==> len(integrityAlgorithms) == offset-len(confidentialityAlgorithms)-(3+3*int(cur(joined)[0]&1))
 //@ invariant 2 [C16.c-integ-maximal] offset-len(confidentialityAlgorithms) < len(cur(joined)) ==> cur(joined)[offset-len(confidentialityAlgorithms)]>>6 != 1
-//@ invariant 2 [C16.conf-list] forall(qj, 0, len(confidentialityAlgorithms), cur(joined)[offset-len(confidentialityAlgorithms)+qj]>>6 == 2 && uint8(confidentialityAlgorithms[qj]) == cur(joined)[offset-len(confidentialityAlgorithms)+qj]&0x3f)
+//@ invariant 2 [C16.conf-tags] forall(qj, 0, len(confidentialityAlgorithms), cur(joined)[offset-len(confidentialityAlgorithms)+qj]>>6 == 2)
+//@ invariant 2 [C16.conf-last] len(confidentialityAlgorithms) > 0 ==> uint8(confidentialityAlgorithms[len(confidentialityAlgorithms)-1]) == cur(joined)[offset-1]&0x3f && cur(joined)[offset-1]>>6 == 2
+//@ invariant 2 [C16.conf-list~] forall(qj, 0, len(confidentialityAlgorithms), uint8(confidentialityAlgorithms[qj]) == cur(joined)[offset-len(confidentialityAlgorithms)+qj]&0x3f)
 // (the entry just appended is: suite, authentication, the current integrity algorithm, the j-th confidentiality algorithm)
 //@ invariant 4 [C16.expand-last] rangeindex >= 0 ==> records[len(records)-1].ConfidentialityAlgorithm == confidentialityAlgorithms[rangeindex] && records[len(records)-1].IntegrityAlgorithm == record.IntegrityAlgorithm &&
 //@    records[len(records)-1].CipherSuiteID == record.CipherSuiteID && records[len(records)-1].AuthenticationAlgorithm == record.AuthenticationAlgorithm && records[len(records)-1].Enterprise == record.Enterprise
@@ -313,7 +317,7 @@ func specKInput(st int, n uint8) int {
 //@ assigns hashstate(g.hash)
 //@ ensures [C01.k-nil] isnil(g.hash) ==> isnil(result)
 //@ ensures [C01.k-input] !isnil(g.hash) ==> hIsDigest(result, old(specKInput(hState(g.hash), uint8(n)))) && len(result) == hSizeOf(g.hash) && hState(g.hash) == hInit(g.hash)
-//@ invariant 0 [k.fill] 0 <= i && i <= 20 && len(constant) == 20 && forall(qk, 0, i, constant[qk] == uint8(n))
+//@ invariant 0 [k.fill] 0 <= iter && iter <= 20 && len(constant) == 20 && forall(qk, 0, iter, constant[qk] == uint8(n))
 //@ decreases 0 20 - i
 
 //@ func truncatedHash.Size
